@@ -92,9 +92,9 @@ def _e2(test, text, rule, quick=2500, thorough=50000, **kw):
 
 PROPS.update({
     "C05": _e2("TestVerifC05", "Generated scenarios x generated schedules over the real connection/poller code; exactly-once, ordering and monotonicity judged on the event log, the close(2) audit and the poller-slot census at exact quiescence.",
-               "scenario = callbacks subset x handler behaviour (returns/reads k/closes/panics) x peer script (writes, close/shutdown) x 0-3 closers x detach x observer; schedule drawn step by step; non-trivial = two of {user close, peer hang-up, handler exit, handler panic, detach} within 8 scheduler steps of each other; distinct = scenario + event sequence"),
+               "scenario = callbacks subset x handler behaviour (returns/reads k/closes/panics) x peer script (writes, close/shutdown) x 0-3 closers x detach x observer x closers/detacher acting as soon as OnPrepare has returned (while netpoll registers the connection) or only after the accept x user Close inside OnDisconnect or inside a close callback; schedule drawn step by step; non-trivial = two of {user close, peer hang-up, handler exit, handler panic, detach} within 8 scheduler steps of each other; distinct = scenario + event sequence"),
     "C06": _e2("TestVerifC06", "Generated input chunkings, handler behaviours and schedules; serial execution and 'no stranded input' are decided exactly at quiescence (no enabled actor), without any wall clock.",
-               "scenario = 0-5 peer chunks x handler (all / k per call / lazy / close) x optional OnConnect x optional late SetOnRequest x peer close; non-trivial = a handler ran and a poller delivery or the peer close fell within 6 steps of a handler return, or SetOnRequest raced buffered data; distinct = scenario + event sequence"),
+               "scenario = 0-5 peer chunks x handler (all / k per call / lazy / close) x optional OnConnect (which may itself install the handler with SetOnRequest on a server that has none) x optional late SetOnRequest x peer close; non-trivial = a handler ran and a poller delivery or the peer close fell within 6 steps of a handler return, or SetOnRequest raced buffered data; distinct = scenario + event sequence"),
     "C09": _e2("TestVerifC09", "Generated callback subsets, OnConnect durations, data/close timing and schedules; order invariants judged on the event log.",
                "scenario = subset of OnPrepare/OnConnect/OnRequest/OnDisconnect x OnConnect yields/read/close x peer writes/close x optional closer; non-trivial = the peer's write or close fell within 8 steps of registration or of an OnConnect start/end; distinct = scenario + event sequence"),
     "C07": _e2("TestVerifC07", "Generated read sequences, timeout modes, chunkings around the n-th byte, timer expiry as a scheduling choice (the real timer is fired), peer/user close, over generated schedules; outcome judged against the order of data, clock and close events; 'blocked for ever' is exact (reader parked at quiescence).",
@@ -123,7 +123,7 @@ PROPS.update({
                "scenario = 1-5 descriptors (+120-140 idle ones in 5% of the cases, crossing the 128-event array growth) x Inputs buffer size x optional output stream through Outputs/OutputAck with a 2 KiB socket buffer x peer script (writes, reads, shutdown, close, close with unread data) x user detach x Trigger x Close; non-trivial = at least two descriptors and one of them got data and hang-up; distinct = scenario + event sequence",
                quick=1500, thorough=40000),
     "C13": dict(_e2("TestVerifC13", "Two generated searches: (E2) the real server on a unix listener on one poller with accepted connections on a second poller, clients connecting/writing/closing at scheduler-chosen moments - the tracking map is compared with the set of active connections at exact quiescence; (E3) generated mixes of idle, busy and closing clients around Shutdown with generated handler durations and context deadlines on real threads - Shutdown/Serve results, idle-closed/busy-kept, descriptor census.",
-               "E2: 1-3 clients x {connect, connect+write, connect+close, connect+write+close} x OnConnect or not, two pollers, generated schedule; non-trivial = a client's close fell within 25 steps of its connection's OnPrepare. E3: 0-4 idle, 0-3 busy (handler blocked until released), 0-3 closing clients, 0-2 connections whose handler has returned while a server goroutine still sends a 2-12 MiB response the client has not read x Shutdown deadline before/after the handlers' release x tcp4/unix, or an accept-fails-with-EMFILE stretch of 20/150/700/2300 ms with clients queued meanwhile; non-trivial = at least one busy and one idle connection at Shutdown, or a close racing the accept; distinct = scenario (+ event sequence for E2)"),
+               "E2: 1-3 clients x {connect, connect+write, connect+close, connect+write+close} x OnConnect or not x optionally a user goroutine calling the server's Close (Shutdown) at a scheduler-chosen moment, two pollers, generated schedule; non-trivial = a client's close fell within 25 steps of its connection's OnPrepare. E3: 0-4 idle, 0-3 busy (handler blocked until released), 0-3 closing clients, 0-2 connections whose handler has returned while a server goroutine still sends a 2-12 MiB response the client has not read x Shutdown deadline before/after the handlers' release x tcp4/unix, or an accept-fails-with-EMFILE stretch of 20/150/700/2300 ms with clients queued meanwhile; non-trivial = at least one busy and one idle connection at Shutdown, or a close racing the accept; distinct = scenario (+ event sequence for E2)"),
         engine="E2 simworld + E3 livenet",
         parts=[
             {"test": "TestVerifC13", "variant": "instr", "chunk": 2500, "quick": {"checks": 1500, "shards": 16}, "thorough": {"checks": 25000, "shards": 16}, "replay_marker": "decisions"},
@@ -151,8 +151,8 @@ def _e3(test, text, rule, quick, thorough, shards_q=8, shards_t=12, **kw):
     return d
 
 PROPS.update({
-    "C14": _e3("TestVerifC14", "Generated dial targets (accepting TCP4/TCP6/unix, refused, SYN-dropping listener with a full accept queue, accept-and-reset), timeouts from 50 us to 300 ms bracketing the connect latency, 1-32 concurrent dials; results, Timeout(), echo round trip and descriptor/poller-slot censuses are checked.",
-               "scenario = target kind x timeout in {50us..300ms} x concurrency in {1,2,8,32}; non-trivial = at least one dial failed or timed out; distinct = scenario + number of failed/timed-out dials",
+    "C14": _e3("TestVerifC14", "Generated dial targets (accepting TCP4/TCP6/unix, refused, SYN-dropping listener with a full accept queue, accept-and-reset), timeouts from 50 us to 300 ms bracketing the connect latency, 1-32 concurrent dials, sweeps of 50-1000 sequential dials per goroutine with timeouts from 10% to 200% of a base, and 12000 dials to one refusing even port (TCP self-connect); results, Timeout(), echo round trip and descriptor/poller-slot censuses are checked.",
+               "scenario = target kind x timeout in {50us..300ms} x concurrency in {1,2,8,32} x optional timeout sweep / refused-port sweep; non-trivial = at least one dial failed or timed out; distinct = scenario + number of failed/timed-out dials",
                quick=25, thorough=600),
     "C15": _e3("TestVerifC15", "Generated lifecycles of connections (dialled, accepted, adopted with NewFDConnection, detached), listeners (CreateListener/ConvertListener), failed dials and private poller pools; every close(2) netpoll issues is audited BEFORE it executes (is the number open? is it a harness-owned victim parked on a number netpoll has already closed?) and the descriptor census must return to its baseline.",
                "scenario = 1-6 lifecycle steps out of 12 kinds (dial tcp/unix, refused dial, timed-out dial, dial whose poller registration fails, server tcp/unix with 3 clients and Shutdown, NewFDConnection, Detach, private manager grow/shrink/Close, CreateListener, 4 connections closed twice concurrently); non-trivial = the scenario has an error path, a server or concurrent closes; distinct = step sequence",
